@@ -23,6 +23,7 @@ RULE = (
     "texts and from every corpus chart (decode -> encode -> decode -> encode). Non-trivial = mixed denominators inside "
     "one measure, a skipped measure or player, keysounds, or the empty stream; distinct = distinct case JSON"
 )
+RULE += " " + 'Added after the seeding rounds: a crowded keysounded row longer than 64 characters (also as very first row); before every checked call the same beats are built from floats and one call with an out-of-range column is made and its outcome ignored (process history that must not matter).'
 ASSUMPTIONS = ["the decoder is validated by C07", "structural reading of the canonical text: '&' and ',' lines separate sections and measures"]
 
 CELL = re.compile(r"([^\[\]])(?:\[(\d+)\])?")
